@@ -93,6 +93,7 @@ const (
 	EvFuncLit
 	EvLoopBegin
 	EvLoopEnd
+	EvLoopZero // a range statement passed with zero iterations
 	EvAccess // guarded field access (only when requested)
 	EvAssert // x.(T)
 	EvPanic
@@ -100,7 +101,7 @@ const (
 
 var evNames = map[EvKind]string{EvCall: "call", EvAssign: "assign", EvSend: "send", EvRecv: "recv", EvClose: "close",
 	EvCond: "cond", EvOutcome: "outcome", EvTypeCase: "typecase", EvSelect: "select", EvGo: "go", EvDefer: "defer",
-	EvFuncLit: "funclit", EvLoopBegin: "loop{", EvLoopEnd: "}loop", EvAccess: "access", EvAssert: "assert", EvPanic: "panic"}
+	EvFuncLit: "funclit", EvLoopBegin: "loop{", EvLoopEnd: "}loop", EvLoopZero: "loop{}", EvAccess: "access", EvAssert: "assert", EvPanic: "panic"}
 
 type Event struct {
 	Kind EvKind
@@ -250,7 +251,7 @@ type Trace struct {
 func (p *Program) TraceStrings(t *Trace) []string {
 	var out []string
 	for _, e := range t.Ev {
-		if e.Kind == EvLoopBegin || e.Kind == EvLoopEnd {
+		if e.Kind == EvLoopBegin || e.Kind == EvLoopEnd || e.Kind == EvLoopZero {
 			continue
 		}
 		out = append(out, p.EvString(e))
@@ -799,6 +800,7 @@ func (in *Interp) rangeStmt(st *state, x *ast.RangeStmt, fr *frame, k func(*stat
 	// zero iterations
 	if coll.K != VNonEmpty {
 		s0 := st.fork()
+		s0.emit(&Event{Kind: EvLoopZero, Pos: x.Pos(), Node: x, LoopStmt: x})
 		k(s0)
 	}
 	if coll.K == VEmpty {
